@@ -18,10 +18,15 @@ theorem clipEnd_infinity (cfg cfg' : Cfg) (hbs : cfg.bs = cfg'.bs) (sender : Int
 def IsRR (cfg : Cfg) (t : Int) (m : OutMsg) : Prop :=
   m.kind = "2" ∧ m.f.get? 7 = some (toString t) ∧ m.f.get? 16 = some (toString (infinityEnd cfg))
 
-theorem isRR_of (cfg : Cfg) (hch : cfg.chunk = 0) (t e : Int) (m : OutMsg) (hk : m.kind = "2") (hf : m.f = (rrOut cfg t e).f) : IsRR cfg t m := by
+/-- (number and header bookkeeping do not matter) -/
+theorem isRR_of (cfg : Cfg) (hch : cfg.chunk = 0) (t e : Int) (m : OutMsg) (hk : m.kind = "2") (hf : m.f = (rrOut cfg t e).f) :
+    IsRR cfg t m := by
   refine ⟨hk, ?_, ?_⟩
   · rw [hf]; simp [rrOut, mkOut, get?_cons]
   · rw [hf]; simp [rrOut, rrEnd, mkOut, get?_cons, hch]
+
+theorem isRR_rrOut (cfg : Cfg) (hch : cfg.chunk = 0) (t e n : Int) : IsRR cfg t { rrOut cfg t e with seq := n } :=
+  isRR_of cfg hch t e _ rfl rfl
 
 theorem rrCur_chunk0 (cfg : Cfg) (hch : cfg.chunk = 0) (t e : Int) : rrCur cfg t e = 0 := by simp [rrCur, hch]
 
@@ -29,16 +34,17 @@ theorem rrCur_chunk0 (cfg : Cfg) (hch : cfg.chunk = 0) (t e : Int) : rrCur cfg t
     whatever it still had queued -/
 theorem res_rr_fix {c : Ctx} (hc : CtxOK c) {s : Sess} (hs : s.cfg = c.cfg) {m : OutMsg} (hw : Wire c.P m) (b : Int)
     (hrr : IsRR c.pcfg b m) (hb1 : 1 ≤ b) (hb2 : b ≤ maxSeq) (hst : RecvSt s.st) (ho : s.out = true) (hge : s.store.target ≤ m.seq) :
-    ∃ lt W q, ((replyPlanR lt true s.store b (s.store.sender - 1) = [] ∧ W = [] ∧ q = s.toSend) ∨
-            (replyPlanR lt true s.store b (s.store.sender - 1) ≠ [] ∧ W = s.toSend ++ replyPlanR lt true s.store b (s.store.sender - 1) ∧ q = [])) ∧
+    ∃ W q, ((replyPlanR (replyLastOf s (toIn c.pcfg m)) true s.store b (s.store.sender - 1) = [] ∧ W = [] ∧ q = s.toSend) ∨
+            (replyPlanR (replyLastOf s (toIn c.pcfg m)) true s.store b (s.store.sender - 1) ≠ [] ∧
+              W = s.toSend ++ replyPlanR (replyLastOf s (toIn c.pcfg m)) true s.store b (s.store.sender - 1) ∧ q = [])) ∧
       Res s (fixMsgInCore s (toIn c.pcfg m)) 0 W q (if m.seq = s.store.target then s.store.target + 1 else s.store.target)
         (stAt s.st (if m.seq = s.store.target then s.store.target + 1 else s.store.target)) := by
   obtain ⟨hk2, h7, h16⟩ := hrr
   have hinf : inInt64 (infinityEnd c.pcfg) := by unfold infinityEnd inInt64; split <;> omega
-  obtain ⟨lt, W, q, hWq, hres⟩ := res_resendRequest hc hs hw hk2 b (infinityEnd c.pcfg) h7 h16 (in64_of_range b hb1 hb2) hinf
+  obtain ⟨W, q, hWq, hres⟩ := res_resendRequest hc hs hw hk2 b (infinityEnd c.pcfg) h7 h16 (in64_of_range b hb1 hb2) hinf
     (recvSt_loggedOn hst) ho hge
   rw [clipEnd_infinity s.cfg c.pcfg (by rw [hs]; exact hc.bs) s.store.sender] at hWq
-  refine ⟨lt, W, q, hWq, ?_⟩
+  refine ⟨W, q, hWq, ?_⟩
   have hfx : inSessionFixMsgIn s (toIn c.pcfg m) = handleResendRequest s (toIn c.pcfg m) := by
     unfold inSessionFixMsgIn
     simp only [toIn_kind, hk2]
@@ -70,9 +76,12 @@ theorem rrB {cfgA cfgB : Cfg} (hcf : CfgsOK cfgA cfgB) {l : LSt} (h : LInv cfgA 
   have hctx := ctxOK_B hcf h hbnd.1 (noteRcv l.rcvB (toIn l.a.cfg m)) l.dlvB
   have hrr' : IsRR (mkCtx l.b l.a (noteRcv l.rcvB (toIn l.a.cfg m)) l.dlvB).pcfg b m := by
     show IsRR l.a.cfg b m; rw [h.ca]; exact hrr
-  obtain ⟨lt, W, q, hWq, hres⟩ := res_rr_fix hctx (s := l.b.clearLog) rfl hw b hrr' hb1 (by have := hbnd.2; omega) hst ho hge
+  obtain ⟨W, q, hWq, hres⟩ := res_rr_fix hctx (s := l.b.clearLog) rfl hw b hrr' hb1 (by have := hbnd.2; omega) hst ho hge
   obtain ⟨_, _, _, _, hall⟩ := hfull.2 rfl
-  have hseg := seg_reply l.b.store h.ba.sok lt b (l.b.store.sender - 1) (by omega) hblt (Int.le_refl _)
+  generalize hlt : replyLastOf l.b.clearLog (toIn (mkCtx l.b l.a (noteRcv l.rcvB (toIn l.a.cfg m)) l.dlvB).pcfg m) = lt at hWq
+  have hWq : (replyPlanR lt true l.b.store b (l.b.store.sender - 1) = [] ∧ W = [] ∧ q = l.b.toSend) ∨
+      (replyPlanR lt true l.b.store b (l.b.store.sender - 1) ≠ [] ∧ W = l.b.toSend ++ replyPlanR lt true l.b.store b (l.b.store.sender - 1) ∧ q = []) := hWq
+  have hseg := seg_reply l.b.store h.ba.sok b (l.b.store.sender - 1) (by omega) hblt (Int.le_refl _) lt
     (fun n h1 h2 => hall n (by omega) h2)
   have hne : replyPlanR lt true l.b.store b (l.b.store.sender - 1) ≠ [] := by
     intro he; rw [he] at hseg; have := seg_nil_eq hseg; omega
@@ -139,15 +148,14 @@ theorem logonB {cfgA cfgB : Cfg} (hcf : CfgsOK cfgA cfgB) (hch : cfgB.chunk = 0)
       deliverB_gen hcf h hq hcon hbnd (hres1 heq) rfl (by rcases hn0 with h0 | h0 <;> omega)
     exact ⟨n0, W, q0, hrole, k1, k2, k3, k4, by rw [k9]; exact ho, k10, k11, k12, Or.inl ⟨heq, k5, k6, k7, k8⟩⟩
   · have hlt : l.b.store.target < m.seq := by omega
-    obtain ⟨rr, hrk, hrf, hrs, hres2'⟩ := hres2 hlt
     obtain ⟨k1, k2, k3, k4, k5, k6, k7, k8, k9, k10, k11, k12⟩ :=
-      deliverB_gen hcf h hq hcon hbnd hres2' rfl (by rcases hn0 with h0 | h0 <;> omega)
+      deliverB_gen hcf h hq hcon hbnd (hres2 hlt) rfl (by rcases hn0 with h0 | h0 <;> omega)
     refine ⟨n0, W, q0, hrole, k1, k2, k3, k4, by rw [k9]; exact ho, k10, k11, k12, Or.inr ⟨hlt, ?_, k6, by rw [k7]; omega, ?_⟩⟩
     · rw [k5]
       show SState.resend [] (rrCur l.b.cfg l.b.store.target (m.seq - 1)) (m.seq - 1) = _
       rw [rrCur_chunk0 _ (by rw [h.cb]; exact hch)]
-    · refine ⟨rr, ?_, hrs, k8⟩
-      obtain ⟨a1, a2, a3⟩ := isRR_of l.b.cfg (by rw [h.cb]; exact hch) l.b.store.target (m.seq - 1) rr hrk hrf
+    · refine ⟨_, ?_, rfl, k8⟩
+      obtain ⟨a1, a2, a3⟩ := isRR_rrOut l.b.cfg (by rw [h.cb]; exact hch) l.b.store.target (m.seq - 1) (l.b.store.sender + n0)
       exact ⟨a1, a2, by rw [← h.cb]; exact a3⟩
 
 theorem logonA {cfgA cfgB : Cfg} (hcf : CfgsOK cfgA cfgB) (hch : cfgA.chunk = 0) (hv : cfgA.bs = 5 → cfgB.applVer ≠ "")
